@@ -31,6 +31,8 @@ type SchedCase struct {
 	Bound     *int   `json:"bound,omitempty"` // overrides the property's deviation bound
 	// DefaultOnly: structural scenario, only the default schedule is run
 	DefaultOnly bool `json:"default_only,omitempty"`
+	// Invalid: the operation is expected to be REJECTED before execution (not parsed by the harness)
+	Invalid bool `json:"invalid,omitempty"`
 }
 
 func planOf(kv ...string) Plan {
@@ -74,6 +76,14 @@ func c06Cases(tier string) []SchedCase {
 	for _, q := range []string{`{t{name req kid{name req}}}`, `{ts{name kid{req}}}`, `{tReq{kidReq{req name}}}`} {
 		out = append(out, SchedCase{Case: Case{Op: Op{Text: q}, Yield: true, Cancel: true, IgnoreCancel: true}, Name: q + " | cancel ignored by resolvers"})
 	}
+	// ... and failures recorded after the context ended are still reported
+	out = append(out, SchedCase{Case: Case{Op: Op{Text: `{t{name req}}`}, Plan: planOf("t.name", "error"), Yield: true, Cancel: true, IgnoreCancel: true}, Name: "{t{name req}} | t.name=error; cancel ignored by resolvers"})
+	out = append(out, SchedCase{Case: Case{Op: Op{Text: `{tReq{kidReq{req}}}`}, Plan: planOf("tReq.kidReq.req", "panic"), Yield: true, Cancel: true, IgnoreCancel: true}, Name: "{tReq{kidReq{req}}} | panic; cancel ignored by resolvers"})
+	// an object type with exactly ONE resolver field, selected twice under aliases, both failing
+	add(`{one{a:only b:only}}`, planOf("one.a", "error", "one.b", "error"))
+	add(`{one{a:only b:only c:only}}`, planOf("one.a", "error", "one.c", "panic"))
+	// every resolver registers a response extension
+	out = append(out, SchedCase{Case: Case{Op: Op{Text: `{t{name req} ts{name}}`}, Yield: true, RegisterExt: true}, Name: "{t{name req} ts{name}} | extensions registered by every resolver"})
 	// a list whose elements have different concrete types, selecting the same response key
 	// through a shared occurrence and through type-specific fragments
 	add(`{peers{peer{id __typename x_id:id} ... on T{peer{... on T{name}}} ... on S{peer{... on S{title}}}}}`, planOf("peers[1]", "alt"))
@@ -127,6 +137,14 @@ func c05Cases(tier string) []SchedCase {
 	for _, tr := range []string{"", "sse", "mixed", "ws"} {
 		out = append(out, SchedCase{Case: Case{Op: Op{Text: `{t{kidReq{id} ... @defer{name}}}`}, Plan: planOf("t.kidReq", "error"), Yield: true, Cancel: false}, Transport: tr, Name: tr + " failing sibling of a deferred fragment", Bound: &zero})
 		out = append(out, SchedCase{Case: Case{Op: Op{Text: `{ts{req ... @defer{name}}}`}, Plan: planOf("ts[1].req", "error"), Yield: true, Cancel: false}, Transport: tr, Name: tr + " failing list element with a deferred fragment", Bound: &zero})
+	}
+	// requests REJECTED before execution leave nothing running either
+	for _, tr := range []string{"post", "sse", "mixed", "ws"} {
+		out = append(out, SchedCase{Case: Case{Op: Op{Text: `{nosuchfield}`}, Yield: true, Cancel: true}, Transport: tr, Invalid: true, Name: tr + " rejected operation", Bound: &one})
+	}
+	// resolvers that return their values although the context was cancelled
+	for _, q := range []string{`{t{name req kid{name}}}`, `{ts{name req}}`} {
+		out = append(out, SchedCase{Case: Case{Op: Op{Text: q}, Yield: true, Cancel: true, IgnoreCancel: true}, Name: q + " | cancel ignored by resolvers", Bound: &one})
 	}
 	// an element-level panic (a Go type the generated type switch does not know) in a list
 	// under a worker limit: every slot and every wait-group count is accounted for
@@ -214,7 +232,7 @@ func (si *schedInst) Body() {
 	}
 	in := si.Inst
 	s := in.S
-	in.Env = &Env{Plan: in.C.Plan, DefaultImpl: s.W.DefaultImpl, AltImpl: s.W.AltImpl, RogueImpl: s.W.RogueImpl, Yield: in.C.Yield, HonourCancel: in.C.Cancel, Intercept: in.C.Intercept, MapFields: s.mapFields}
+	in.Env = &Env{Plan: in.C.Plan, DefaultImpl: s.W.DefaultImpl, AltImpl: s.W.AltImpl, RogueImpl: s.W.RogueImpl, Yield: in.C.Yield, HonourCancel: in.C.Cancel && !in.C.IgnoreCancel, Intercept: in.C.Intercept, MapFields: s.mapFields, RegisterExt: in.C.RegisterExt}
 	s.cur = in.Env
 	ctx, cancel := context.WithCancel(context.Background())
 	if in.C.Cancel {
@@ -630,7 +648,7 @@ func (s *Shared) schedMain(prop, tier string) {
 			for _, c := range cases {
 				c := c
 				doc, errs := s.Parse(c.Op)
-				if errs != nil {
+				if errs != nil && !c.Invalid {
 					panic(fmt.Sprintf("corpus operation invalid: %s: %v", c.Op.Text, errs))
 				}
 				out = append(out, &explore.Scenario{Name: c.Name, Meta: c, Bound: c.Bound, DefaultOnly: c.DefaultOnly, New: func() explore.Instance {
